@@ -1019,3 +1019,5 @@ def check(src, rep, tier):
     # refusals are ValueError: the messages of the refusals can be built
     from . import common
     rep.guard('C18.R5', common.check_error_construction, src, 'C18.R5', 'debian_support', ('patches_from_ed_script', 'patch_lines'), 0)
+    from . import common as _common_flags
+    rep.guard('C18.R5', _common_flags.check_re_positional_flags, src, 'C18.R5', 'debian_support', 'a script or index text with more separators than that is cut short')
